@@ -370,3 +370,20 @@ M("c03.equal-rule-not-added", "C03", MOD,
 M("c17.ensure-dir-one-level", "C17", "behave/formatter/base.py", "os.makedirs(directory)", "os.mkdir(directory)")
 M("c20.behave-stage-over-file", "C20", CFG, "        if stage is None:\n            # -- USE ENVIRONMENT-VARIABLE, if stage is undefined.",
   "        if stage is None or stage == self.defaults.get(\"stage\"):\n            # -- USE ENVIRONMENT-VARIABLE, if stage is undefined.")
+# ---- rounds 12 / 13 ----------------------------------------------------------------------------------------------------------
+M("c20.exclude-ignored-when-include-given", ["C20"], CFG,
+  "        if self.include_re and self.include_re.search(filename) is None:\n            return True\n        if self.exclude_re",
+  "        if self.include_re:\n            return self.include_re.search(filename) is None\n        if self.exclude_re")
+M("c20.color-never-coloured-on-a-terminal", ["C20"], CFG,
+  "        if self.color in COLOR_OFF_VALUES:\n            return False\n", "        if self.color == COLOR_DEFAULT_OFF:\n            return False\n")
+M("c08.old-style-str-separators-swapped", ["C08"], TE + "v1.py",
+  "            and_parts.append(u\",\".join(or_terms))\n        return u\" \".join(and_parts)",
+  "            and_parts.append(u\" \".join(or_terms))\n        return u\",\".join(and_parts)")
+M("c05.examples-outside-outline-line-of-first-tag", ["C05"], "behave/parser.py",
+  "            message = u\"Examples must only appear inside scenario outline\"\n            raise ParserError(message, self.line, self.filename, line)",
+  "            message = u\"Examples must only appear inside scenario outline\"\n            raise ParserError(message, self.tags[0].line if self.tags else self.line, self.filename, line)")
+M("c10.feature-locations-lose-their-line-with-include", ["C10"], RUN,
+  "    def feature_locations(self):\n        return collect_feature_locations(self.config.paths)",
+  "    def feature_locations(self):\n        locations = collect_feature_locations(self.config.paths)\n        if self.config.include_re or self.config.exclude_re:\n            from behave.model_core import FileLocation as _FL\n            locations = [_FL(loc.filename) for loc in locations]\n        return locations")
+M("c19.composite-setup-skips-uncached-categories", ["C19"], "behave/tag_matcher.py",
+  "    for category in list(active_tag_values.keys()):", "    for category in [c for c in data.keys() if c in active_tag_values]:")
